@@ -47,6 +47,7 @@ func init() {
 }
 
 func runC06(c *Ctx, r *Report) {
+	importFoundation(c, r, "C06", "read-loop")
 	r.Rule("C06/always-fetches-prompt", "AcquirePriv reports success only after it fetched the device's prompt (a lost connection cannot be reported as success)", 1)
 	checkAcquireAlwaysFetchesPrompt(c, r, "C06/always-fetches-prompt")
 	r.Rule("C06/error-classes", "each failure site named by the property wraps the sentinel the property names (timeout / auth / connection / privilege / NETCONF / operation / platform error)", 2)
